@@ -12,3 +12,5 @@ import Spade.Properties.C14
 #print axioms Spade.C14_code_empty
 #print axioms Spade.C14_code_out_edges_links
 #print axioms Spade.C14_code_hull_double_ended
+#print axioms Spade.C14_code_hull_front
+#print axioms Spade.C14_code_hull_back
